@@ -7,6 +7,7 @@ import (
 	"os"
 	"strconv"
 
+	"verifharness/drv/c15"
 	"verifharness/drv/c19"
 	"verifharness/drv/c20"
 	"verifharness/drv/wire"
@@ -35,6 +36,8 @@ func main() {
 		wire.RunC01(os.Args[2])
 	case "c02":
 		wire.RunC02(os.Args[2])
+	case "c15":
+		c15.Run(os.Args[2], os.Args[3])
 	case "c19x":
 		a := os.Args
 		c19.Explicit(a[2], a[3], atoi(a[4]), atoi(a[5]), atoi(a[6]), a[7] == "1")
